@@ -572,6 +572,8 @@ func main() {
 			"stress basewrite replace single 0 4", "stress basewrite compute all 0 5"},
 		// compositions, sequentially (differential with the graph model): non-empty base sets at construction, diamond
 		{"gs new ds-sub-ds 1,2 2,3 3,4", "gs add 0 5", "gs add 2 5", "gs del 0 5", "gs replace 1 1,5", "gs apply 2 1 5", "gs del 1 1", "gs replace 0 -"},
+		{"gs new ds-ds-sub 1,2,3 3 4", "gs inherit 3", "gs inherit 0", "gs add 1 1", "gs unsub 3", "gs del 0 1", "gs add 0 5", "gs unsub 0", "gs inherit 3", "gs del 1 3", "gs inherit 4",
+			"gs replace 2 -", "gs unsub 4", "gs unsub 3"},
 		{"gs new sub-subs 1,2,3 2 1,2", "gs del 1 2", "gs add 1 3", "gs add 1 1", "gs replace 2 -", "gs replace 1 -"},
 		// a writer inside the OnUpdate window (registration + snapshot done, initial invocation not yet) of every subscribing call
 		{"stress onupdate dvar lin 1,5 1 0:3", "stress onupdate dvar lin 1,5 2 1:0", "stress onupdate dvar lin 1,5 2 0:4", "stress onupdate dvar lin 1,2,3 2 1:7,2:0",
